@@ -104,10 +104,6 @@ theorem pw_sel {R : Nat → Nat → Prop} {l : List Nat} (a : Nat) (h : l.Pairwi
   · exact List.pairwise_singleton _ _
   · rw [List.pairwise_map]; exact h
 
-/-- the extra hypothesis: an all-day seed with BYMINUTE / BYSECOND but no BYHOUR yields instants with H = ALL_DAY and a
-time of day -/
-def TimeOk (r : Rule) (p : Inst) : Prop := p.H = allDay → r.H = [] → (r.M = [] ∧ r.S = [])
-
 theorem makeEnum_ok (r : Rule) (p : Inst) (hr : WfRule r) (hp : WfInst p) (ht : TimeOk r p) : EnumOk (makeEnum p r) := by
   rw [makeEnum_eq]
   have hpM : p.M < 60 ∧ p.S < 60 := by
